@@ -415,7 +415,7 @@ func reportText(ctx *core.Ctx, tc *TextCase, exp *TextExp, l, r Neighbour) {
 		}
 		if l.Comment || r.Comment {
 			feature = ClassifyText(tc.Text, pinnedOf(exp, l, r), mid)
-			if strings.HasPrefix(feature, "ws:") {
+			if strings.HasPrefix(feature, "ws:") && !strings.HasPrefix(feature, "ws:pos=inner") {
 				// a whitespace decision next to a comment; damage to
 				// non-whitespace characters keeps the signature of family text
 				fam = "comment"
